@@ -1323,6 +1323,61 @@ def suite_close_drains_queue(tier, seed):
     return s
 
 
+# ------------------------------------------------------------------------------------ C09: hundreds of older versions of one address
+def suite_many_versions(tier, seed, backends=("sql", "kv")):
+    s = Suite("oracle:many-older-versions-superseded")
+    s.rule = ("N in {520 (quick), 501, 620, 1100} older versions of one replaceable address (kind 10002, or kind 30023 with d='ab') arrive newest "
+              "first - each is stored, as an import does - next to three bystanders (another author's version, the same author's other kind, the "
+              "same author's d='a'); then the newest version arrives: exactly that version of the address may remain and the bystanders are "
+              "untouched; SQL and LMDB; non-trivial = more than 500 versions were stored when the newest arrived")
+    rng = rng_for(seed, "c09many")
+
+    async def one(backend, kind, n):
+        env.load_config()
+        env.patch_clock()
+        sc = env.Scratch()
+        st = await (env.sql_storage(sc) if backend == "sql" else env.kv_storage(sc))
+        try:
+            d = [["d", "ab"]] if kind >= 30000 else []
+            by = [env.mk_event(1, kind, env.NOW - 5, d, "other author"), env.mk_event(0, 1, env.NOW - 5, d, "other kind")]
+            if kind >= 30000:
+                by.append(env.mk_event(0, kind, env.NOW - 5, [["d", "a"]], "other d"))
+            for e in by:
+                await st.add_event(e)
+            olds = [env.mk_event(0, kind, env.NOW - 10 - i, d + [["t", "v"]], "v%d" % i) for i in range(n)]
+            acks = 0
+            for e in olds:
+                try:
+                    _, ok = await st.add_event(e)
+                    acks += bool(ok)
+                except Exception:
+                    pass
+            await env.quiesce(st)
+            before = len(await env.stored_ids(st))
+            newest = env.mk_event(0, kind, env.NOW, d, "newest")
+            _, ok = await st.add_event(newest)
+            await env.quiesce(st)
+            ids = set(await env.stored_ids(st))
+            return {"stored_before": before, "acked_old": acks, "newest_ok": bool(ok), "left_old": sum(1 for e in olds if e["id"] in ids),
+                    "newest_stored": newest["id"] in ids, "bystanders_left": sum(1 for e in by if e["id"] in ids), "bystanders": len(by)}
+        finally:
+            await env.close(st)
+            sc.close()
+    sizes = [520] if tier == "quick" else [501, 620, 1100]
+    for backend in backends:
+        for n in sizes:
+            kind = rng.choice([10002, 30023]) if tier == "quick" else None
+            for k in ([kind] if kind else [10002, 30023]):
+                obs = env.run(one(backend, k, n))
+                case = {"backend": backend, "kind": k, "older_versions": n}
+                s.case(case, nontrivial=obs["stored_before"] > 500)
+                if obs["left_old"] or not obs["newest_stored"] or obs["bystanders_left"] != obs["bystanders"]:
+                    s.violate("older-version-survives" if obs["left_old"] else "replace-frame-broken", case,
+                              "after the newest version arrived %d older versions are still stored; newest stored: %s; bystanders left: %d of %d"
+                              % (obs["left_old"], obs["newest_stored"], obs["bystanders_left"], obs["bystanders"]), observed=obs)
+    return s
+
+
 # ------------------------------------------------------------------------------------ C12
 CAP_SCRIPT = r'''
 import sys, json, asyncio, logging
@@ -2044,6 +2099,7 @@ def registry():
         "fault:sql-concurrent-transactions": suite_concurrent_fault,
         "oracle:ack-agrees-despite-failed-broadcast": suite_ack_with_failing_broadcast,
         "oracle:kv-close-writes-acknowledged-events": suite_close_drains_queue,
+        "oracle:many-older-versions-superseded": suite_many_versions,
         "oracle:limit-cap-plain-subscribe": suite_cap_plain_subscribe,
         "oracle:announce-every-accepted-event": suite_announce_all_accepted,
         "oracle:removed-unreachable-after-read": suite_removed_unreachable_after_read,
